@@ -147,6 +147,10 @@ type myErr struct{}
 func (myErr) Error() string { return "e" }
 
 type myF float64
+type myF32 float32
+type myC64 complex64
+type myI8 int8
+type myU16 uint16
 type myC complex128
 
 func fmf() myF { note("fmf"); v := pf(cur.FV[cnt%len(cur.FV)]); cnt++; return myF(v) }
